@@ -44,6 +44,7 @@
 #include <stdlib.h>
 #include <string.h>
 #include <sys/socket.h>
+#include <sys/wait.h>
 #include <sys/stat.h>
 #include <sys/un.h>
 #include <time.h>
@@ -1834,10 +1835,31 @@ int main(int argc, char **argv)
 	    do_app(nf > 1 ? atoi(f[1]) : 1);
 	else if (strcmp(op, "f") == 0)
 	    do_drain();
-	else if (strcmp(op, "z") == 0) {
+	else if (strcmp(op, "z") == 0 || strcmp(op, "zf") == 0) {
 	    line_reset();
 	    L.ev = "close";
-	    if (owner) {
+	    if (owner && strcmp(op, "zf") == 0) {
+		/* the documented fork hand-over: the process that created the socket gives it up (xcm_cleanup), the child
+		   is the owner and closes it; the control files must be gone all the same */
+		fflush(out);
+		pid_t pid = fork();
+		if (pid == 0) {
+		    ocall_begin(1);
+		    xcm_close(owner);
+		    ocall_end();
+		    _exit(0);
+		}
+		ocall_begin(1);
+		xcm_cleanup(owner);
+		ocall_end();
+		int st = 0;
+		if (pid > 0)
+		    waitpid(pid, &st, 0);
+		if (owner == lsn)
+		    lsn = NULL;
+		owner = NULL;
+		L.a = (pid > 0 && WIFEXITED(st) && WEXITSTATUS(st) == 0) ? 2 : 3;
+	    } else if (owner) {
 		ocall_begin(1);
 		xcm_close(owner);
 		ocall_end();
